@@ -112,7 +112,9 @@ def execute(mod, case, log_on=False):
                 sk_mode = (case.get("config") or {}).get("sklearn_wm") or ("default", "default", "tiny")[(case.get("sched_seed", 0) >> 11) % 3]
                 if sk_mode not in ("default", "tiny"):
                     raise InvalidCase("sklearn_wm")
-                _sklearn.set_config(working_memory=1024 if sk_mode == "default" else 0.0005)
+                # tiny: a few hundred bytes to a few kilobytes, i.e. chunks of one to a few dozen rows for these sizes
+                tiny = (0.0005, 0.002, 0.01)[(case.get("sched_seed", 0) >> 13) % 3]
+                _sklearn.set_config(working_memory=1024 if sk_mode == "default" else tiny)
                 sched.count("sklearn_working_memory:" + sk_mode)
             except ImportError:
                 pass
